@@ -194,9 +194,62 @@ def r4_parsed_values_only(ctx):
         raise AnalysisError('formatted-text audit found only %d sites' % n_sites)
 
 
+def r5_defaulted_delimiters_not_read(ctx):
+    """A Segment carries the delimiters it was built with.  The reader hands it the separators of the header; every
+    delimiter parameter of Segment() it does NOT pass keeps a literal default that has nothing to do with the
+    document.  Reading such an attribute of a segment on the input path makes a result depend on a character the
+    document never declared (a document that happens to use the default character as a separator is then treated
+    differently)."""
+    init = ctx.func('segment', 'Segment.__init__')
+    params = [a.arg for a in init.args.args][1:]
+    ndef = len(init.args.defaults)
+    defaulted = {}
+    for p_, d in zip(params[len(params) - ndef:], init.args.defaults):
+        if isinstance(d, ast.Constant) and isinstance(d.value, str):
+            defaulted[p_] = d.value
+    it = ctx.func('x12file', 'X12Reader.__iter__')
+    segs = [c for c in A.calls_in(it) if A.call_target(c)[1] == 'Segment']
+    if not segs:
+        raise AnalysisError('X12Reader.__iter__ no longer builds Segment objects')
+    passed = set(params[:len(segs[0].args)]) | {k.arg for k in segs[0].keywords}
+    not_passed = {p_: v for p_, v in defaulted.items() if p_ not in passed}
+    # attribute names under which Segment stores those parameters
+    attr_of = {}
+    for n in ast.walk(init):
+        if isinstance(n, ast.Assign) and isinstance(n.value, ast.Name) and n.value.id in not_passed:
+            for t in n.targets:
+                if path_of(t) and path_of(t).startswith('self.'):
+                    attr_of[path_of(t)[5:]] = n.value.id
+    yield Ob('x12file:X12Reader.__iter__ Segment delimiter parameters left at a literal default: %s' % (sorted(not_passed) or 'none'),
+             True, ctx.floc(it, segs[0]), nontrivial=False, note='attributes %s hold %s' % (sorted(attr_of), sorted(not_passed.values())))
+    from ..callgraph import Graph, SEG
+    cg = ctx.cached('callgraph', lambda: Graph(ctx))
+    n_reads = 0
+    for name in INPUT_MODULES:
+        m = ctx.mod(name)
+        for q, fn in A.all_functions(m.tree):
+            if name == 'segment':
+                continue
+            fobj = cg.funcs.get('%s:%s' % (name, q))
+            for n in ast.walk(fn):
+                if isinstance(n, ast.Attribute) and isinstance(n.ctx, ast.Load) and n.attr in attr_of:
+                    recv = path_of(n.value)
+                    if recv is None or recv == 'self':
+                        continue
+                    kind = cg._kind(recv, fobj) if fobj is not None else None
+                    if kind == SEG or (kind and any(c == 'Segment' for _m, c in kind)):
+                        n_reads += 1
+                        yield Ob('%s:%s reads %s.%s' % (name, q, recv, n.attr), False, ctx.loc(m, n),
+                                 'the reader builds segments without passing %s: this attribute is the literal %r, not a delimiter of the '
+                                 'document - a document that uses %r as a separator is judged differently from the same document with other '
+                                 'delimiters' % (attr_of[n.attr], not_passed[attr_of[n.attr]], not_passed[attr_of[n.attr]]))
+    yield Ob('input path reads no defaulted delimiter attribute of a Segment', n_reads == 0, 'pyx12/', '' if not n_reads else '%d read(s)' % n_reads)
+
+
 RULES = [
     Rule('C12.R1', 'no literal delimiter on the input path beyond the enumerated, re-verified exemptions', r1_literal_delimiters, floor=3),
     Rule('C12.R2', 'acknowledgement delimiters are literals; the input terminators flow nowhere in the visitors', r2_ack_delimiters, floor=7),
     Rule('C12.R3', 'delimiter provenance, CR/LF strip set, ISA not sub-split (shared with C01.R4-R6)', r3_shared_with_c01, floor=18),
     Rule('C12.R4', 'validation never inspects re-formatted text', r4_parsed_values_only, floor=1),
+    Rule('C12.R5', 'no delimiter attribute of a Segment that the reader leaves at its literal default is read on the input path', r5_defaulted_delimiters_not_read, floor=1),
 ]
